@@ -265,6 +265,19 @@ func (w *world) chunkData(chunk uint32) (uint32, uint32, []byte) {
 // genMsg draws one message a remote peer may send in the current state.
 func (w *world) genMsg(r *vhlib.Rand) protocol.Message {
 	st := w.p.VerifState()
+	// targeted: the block an earlier over-long payload spilled into (possibly with the
+	// scheduler having looked at the piece in between)
+	if st.HasInfo && w.spill > 0 && w.spill < int64(w.nchunks()) && r.Chance(70) {
+		c := uint32(w.spill)
+		w.spill = 0
+		if r.Chance(40) {
+			w.tick()
+		}
+		if !w.dead {
+			i, b, data := w.chunkData(c)
+			return protocol.Piece{Index: i, Begin: b, Data: data}
+		}
+	}
 	// targeted: answer one of our requests
 	if st.HasInfo && (len(st.Requested)+len(st.Queue) > 0) && r.Chance(30) {
 		var c uint32
@@ -305,6 +318,7 @@ func (w *world) genMsg(r *vhlib.Rand) protocol.Message {
 			n := r.PickInt(rest+CS, rest+2*CS, rest+1, 2*rest, len(data)+1, len(data)+CS, 32768, 16385, 49152, 65536, 1<<17, 1<<18)
 			buf := r.Bytes(n)
 			copy(buf, data)
+			w.spill = int64(c) + 1
 			return protocol.Piece{Index: i, Begin: b, Data: buf}
 		}
 		switch r.Intn(10) {
